@@ -181,3 +181,20 @@ def mixed_dtype_channel(rng, d, pattern):
     w /= w.sum()
     others = [np.sqrt(w[i]) * (haar(rng, d, real=True) @ rest) for i in range(r)]
     return [proj] + others
+
+
+def factorisations(big, n):
+    """Ordered factorisations of big into n and into 2 factors (each >= 1), a few of them."""
+    out = []
+    for k in {n, 2}:
+        def rec(rest, parts):
+            if len(parts) == k - 1:
+                out.append(tuple(parts + [rest]))
+                return
+            for f in range(1, rest + 1):
+                if rest % f == 0:
+                    rec(rest // f, parts + [f])
+        rec(big, [])
+    out = [f for f in out if sum(1 for v in f if v > 1) >= 1]
+    out.sort(key=lambda f: (-sum(1 for v in f if v > 1), f))
+    return out
